@@ -24,6 +24,25 @@ package object
 type Type string
 
 // pre-defined object types.
+// maxNesting is how deep nested arrays and hashes are followed when they are
+// printed, or converted to native values.
+//
+// Deeper values are legal - a loop can build them - but they are walked
+// recursively, and running out of stack takes our host down with us.
+const maxNesting = 1000
+
+// inspectNested returns the string-representation of a member of an array,
+// or hash, which is itself the given number of containers deep.
+func inspectNested(o Object, depth int) string {
+	switch v := o.(type) {
+	case *Array:
+		return v.inspect(depth)
+	case *Hash:
+		return v.inspect(depth)
+	}
+	return o.Inspect()
+}
+
 const (
 	ARRAY   = "ARRAY"
 	BOOLEAN = "BOOLEAN"
